@@ -442,3 +442,51 @@ func (s *Bytes) UnmarshalBinary(b []byte) error {
 func (s *Bytes) UnmarshalJSON(b []byte) error {
 	return doUnmarshal(b, func(c int, p string) { *s = Bytes(kindValue(c, p)) })
 }
+
+// Map and Num are scripted types of map and integer kind.
+
+// Map is a map-kinded type under test: {"c": "<case+1>|<payload>"}. Its decoder adds to the
+// map it is given (a helper that hands two cases the same map is found out).
+type Map map[string]string
+
+// Num is an integer-kinded type under test: the case number itself (a wrong result is
+// 1000 + case); its zero value is 0.
+type Num int
+
+func (m Map) MarshalText() ([]byte, error)   { return doMarshal(kindCase(m["c"])) }
+func (m Map) MarshalBinary() ([]byte, error) { return doMarshal(kindCase(m["c"])) }
+func (m Map) MarshalJSON() ([]byte, error)   { return doMarshal(kindCase(m["c"])) }
+func (m *Map) set(c int, p string) {
+	if *m == nil {
+		*m = Map{}
+	}
+	if old, ok := (*m)["c"]; ok {
+		(*m)["leaked-from-an-earlier-case"] = old
+	}
+	(*m)["c"] = kindValue(c, p)
+}
+func (m *Map) UnmarshalText(b []byte) error   { return doUnmarshal(b, m.set) }
+func (m *Map) UnmarshalBinary(b []byte) error { return doUnmarshal(b, m.set) }
+func (m *Map) UnmarshalJSON(b []byte) error   { return doUnmarshal(b, m.set) }
+
+func numCase(n Num) int {
+	if n >= 1000 {
+		return int(n) - 1000
+	}
+	return int(n)
+}
+
+func (n Num) MarshalText() ([]byte, error)   { return doMarshal(numCase(n)) }
+func (n Num) MarshalBinary() ([]byte, error) { return doMarshal(numCase(n)) }
+func (n Num) MarshalJSON() ([]byte, error)   { return doMarshal(numCase(n)) }
+func (n *Num) set(c int, p string) {
+	l := cur
+	if l != nil && c >= 1 && c <= len(l.specs) && p == l.specs[c-1].payload {
+		*n = Num(c)
+		return
+	}
+	*n = Num(1000 + c)
+}
+func (n *Num) UnmarshalText(b []byte) error   { return doUnmarshal(b, n.set) }
+func (n *Num) UnmarshalBinary(b []byte) error { return doUnmarshal(b, n.set) }
+func (n *Num) UnmarshalJSON(b []byte) error   { return doUnmarshal(b, n.set) }
